@@ -26,7 +26,7 @@ ObsOK(e) ==
   /\ ~e.leads => Len(e.recs) = 0
   /\ (Fresh /\ e.leads) => Rng(e.recs) \subseteq since[<<e.srv, e.sh>>]   \* nothing from before the last gain
 Accept == IF Ev.k = "call" THEN CallOK(Ev) ELSE ObsOK(Ev)
-Next == /\ l <= Len(Traces[tr].events) /\ Accept
+Next == /\ l <= Len(Traces[tr].events) /\ (Accept = TRUE)
         /\ l' = l + 1 /\ tr' = tr
         /\ since' = CASE Ev.k = "call" /\ Ev.leader /\ Ev.served -> [since EXCEPT ![<<Ev.srv, Ev.sh>>] = @ \cup {<<Ev.up, Ev.inst>>}]
                       [] Ev.k = "obs" /\ ~Ev.leads -> [since EXCEPT ![<<Ev.srv, Ev.sh>>] = {}]
